@@ -18,7 +18,8 @@ CONSTANTS Producers, K, Shapes, MaxFaults, MaxCrashes, MaxIdxLoss, InlineAt, Int
           DevRestoreKeepsOffset, \* restart does not advance nextOffset past S3
           DevOrphanNotSkipped,   \* restart fails on any segment without index
           DevOrphanAlwaysSkipped,\* restart silently skips any segment without index
-          DevNoFlushOnAck        \* reply success without Flush
+          DevNoFlushOnAck,       \* reply success without Flush
+          DevTolerateLostIdx     \* restart keeps a committed segment whose index object is gone, without index entries
 VARIABLES mem, up, rfail, restarted, s3seg, s3idx, storeNext, pc, stage, req, art, segUp, idxUp, pubVal, sent,
           faults, crashes, acked, hwReg, nextReg, hwMax, lost, hist
 vars == <<mem, up, rfail, restarted, s3seg, s3idx, storeNext, pc, stage, req, art, segUp, idxUp, pubVal, sent,
@@ -181,15 +182,15 @@ Restart ==
          IdxBases == {x.base : x \in s3idx}
          NbOf(b) == (CHOOSE x \in s3idx : x.base = b).nb
          noIdx(o) == o.base \notin IdxBases
-         bad == IF DevOrphanAlwaysSkipped THEN FALSE
+         bad == IF DevOrphanAlwaysSkipped \/ DevTolerateLostIdx THEN FALSE
                 ELSE \E i \in 1..Len(objs) : noIdx(objs[i]) /\ (DevOrphanNotSkipped \/ objs[i].base < start)
-         good == SelectSeq(objs, LAMBDA o : ~noIdx(o))
+         good == SelectSeq(objs, LAMBDA o : ~noIdx(o) \/ (DevTolerateLostIdx /\ o.base < start))
          last == IF good = <<>> THEN -1 ELSE good[Len(good)].last
          nx == IF last >= start /\ ~DevRestoreKeepsOffset THEN last + 1 ELSE start
      IN /\ rfail' = bad
         /\ up' = ~bad
         /\ mem' = IF bad THEN EmptyMem
-                  ELSE [EmptyMem EXCEPT !.next = nx, !.segs = [i \in 1..Len(good) |-> [base |-> good[i].base, last |-> good[i].last, nb |-> NbOf(good[i].base)]]]
+                  ELSE [EmptyMem EXCEPT !.next = nx, !.segs = [i \in 1..Len(good) |-> [base |-> good[i].base, last |-> good[i].last, nb |-> IF good[i].base \in IdxBases THEN NbOf(good[i].base) ELSE 0]]]
         /\ LET nv == IF ~bad /\ last >= start THEN last + 1 ELSE storeNext IN
              /\ storeNext' = nv /\ hwMax' = IF nv > hwMax THEN nv ELSE hwMax
   /\ restarted' = TRUE
@@ -245,6 +246,11 @@ RECURSIVE PosSeqFrom(_, _, _)
 PosSeqFrom(bs, i, at) == IF i > Len(bs) THEN <<at>> ELSE <<at>> \o PosSeqFrom(bs, i + 1, at + bs[i].sz)
 PosSeq(bs) == PosSeqFrom(bs, 1, Hd)
 SegRange(bs, nb, off, mb) ==
+  IF nb = 0   \* no index entries: sliceFullSegmentData returns the body from its start, capped at mb, whatever the offset
+  THEN LET lim == PosSeq(bs)[Len(bs) + 1]
+           e == IF mb > 0 /\ Hd + mb - 1 < lim - 1 THEN Hd + mb - 1 ELSE lim - 1
+       IN [first |-> 1, start |-> Hd, end |-> e, covered |-> {j \in 1..Len(bs) : PosSeq(bs)[j] <= e}]
+  ELSE
   LET I == IdxSet(SubSeq(bs, 1, IF nb < Len(bs) THEN nb ELSE Len(bs)))   \* the index object may cover only a prefix (retried flush + crash)
       ps == PosSeq(bs)
       i == EntryPick(bs, I, off)
